@@ -646,6 +646,9 @@ pub struct GenOpts {
     /// C09: 64 KiB blocks (a block can become more than 80% invalid): all keys of a block in the middle of the fill
     /// order are deleted, so the invalid-ratio picker reclaims it out of order; the device then wraps several times
     pub invalid: bool,
+    /// C10: more flushed removes than one tombstone-log page holds (but fewer than the device has pages), on a device
+    /// whose page count is not a multiple of the slots per log page; then two restarts
+    pub tomblog: bool,
 }
 
 pub fn gen_cfg(rng: &mut Rng, o: GenOpts) -> HybCfg {
@@ -852,6 +855,54 @@ pub fn run_blobreuse(rng: &mut Rng) -> String {
     out
 }
 
+/// Directed scenario (C10, through the whole store): the engine sizes the tombstone log from the device (one slot
+/// per device page, 256 slots per log page).  On a device of 448 pages (28 blocks of 64 KiB) 300 keys are written,
+/// flushed, removed (each remove flushed: 300 tombstones, more than one log page, fewer than the device has pages);
+/// after two restarts none of the removed keys may be readable.
+pub fn run_tomblog(rng: &mut Rng) -> String {
+    let nkeys = rng.range(280, 330);
+    let cfg = HybCfg {
+        woi: true,
+        foc: true,
+        tomb: true,
+        memcap: 2,
+        lru: false,
+        blocks: 28,
+        flushers: 1,
+        lossy: false,
+        thr: 1,
+        reclaimers: 1,
+        reins: 0,
+        bsize: 64 * 1024,
+        domain: "hyb".into(),
+        hmode: HMode::Id,
+        keys: nkeys,
+    };
+    let mut out = cfg.line();
+    out.push('\n');
+    *crate::CUR_TRACE.lock() = out.clone();
+    let mut ex = HExec::new(cfg);
+    let mut run = |ex: &mut HExec, op: HOp, out: &mut String| {
+        out.push_str(&ex.exec(&op));
+        out.push('\n');
+    };
+    for k in 0..nkeys {
+        run(&mut ex, HOp::WIns { k, sz: 's', force: true }, &mut out);
+    }
+    run(&mut ex, HOp::Wait, &mut out);
+    run(&mut ex, HOp::Reopen, &mut out);
+    for k in 0..nkeys {
+        run(&mut ex, HOp::Rm { k }, &mut out);
+    }
+    run(&mut ex, HOp::Wait, &mut out);
+    run(&mut ex, HOp::Reopen, &mut out);
+    run(&mut ex, HOp::Reopen, &mut out);
+    for k in 0..nkeys {
+        run(&mut ex, HOp::Get { k }, &mut out);
+    }
+    out
+}
+
 /// Directed scenario (C09): one-page entries of fresh keys fill 64 KiB blocks (15 entries each); once a few blocks
 /// are full, every key of one block in the middle of the fill order is removed (that block is then > 80% invalid
 /// and the invalid-ratio picker takes it out of order); inserts continue for several device capacities.  The
@@ -983,6 +1034,9 @@ pub fn run_case(rng: &mut Rng, maxops: u64, o: GenOpts) -> String {
     if o.invalid {
         return run_invalid(rng);
     }
+    if o.tomblog {
+        return run_tomblog(rng);
+    }
     let cfg = gen_cfg(rng, o);
     let mut out = cfg.line();
     out.push('\n');
@@ -1085,6 +1139,7 @@ pub fn main(args: &Args) -> i32 {
         blobreuse: arg_u64(args, "blobreuse", 0) == 1,
         inflight: arg_u64(args, "inflight", 0) == 1,
         invalid: arg_u64(args, "invalid", 0) == 1,
+        tomblog: arg_u64(args, "tomblog", 0) == 1,
     };
     let mut rng = Rng::new(seed ^ 0x4B1D);
     for _ in 0..cases {
